@@ -31,6 +31,7 @@ RULE = (
     "  5 % of the cases are directed sort-over-sort requests on all-iteration bases (new sort terms are expressions "
     "over the columns of an existing sort, rows tie under the new terms): the reference model treats a stable sort "
     "of a determined list in an iteration engine as determined, so their row order is compared exactly. "
+    "  A third of the directed sort-over-sort requests repeat a term of the existing sort with the opposite direction; final requests may be user-defined operations (iteration preferred engines only); bases contain user-defined markers. "
 )
 ASSUMPTIONS = [
     "reference model vmon/model.py, interpreter vmon/interp.py, SQLite + SQLAlchemy, real Processor subclass vmon/dbx.py",
